@@ -343,6 +343,14 @@ def order_table(feat):
         tpls += [
             ("AugSub", "l = [1, 2]\n{0}[{1}] += {2}", ["l", "0", "5"]),
             ("AugSubSlice", "l = [1, 2, 3]\n{0}[{1}:{2}] += {3}", ["l", "0", "1", "[9]"]),
+            # the old element is loaded before the right-hand side runs: a missing key / index raises first, and a
+            # right-hand side that changes the element does not change the value that is updated
+            ("AugSubMissingKey", "d = {{}}\n{0}[{1}] += {2}", ["d", "'k'", "1"]),
+            ("AugSubMissingIdx", "l = [1]\n{0}[{1}] *= {2}", ["l", "5", "2"]),
+            ("AugSubNoSubscript", "n = 5\n{0}[{1}] += {2}", ["n", "0", "1"]),
+            ("AugSubRhsPops", "a = [1, 2]\n{0}[{1}] += a.pop({2})", ["a", "0", "0"]),
+            ("AugSubRhsUpdates", "d = {{'k': 1}}\n{0}[{1}] += d.update(k={2}) or {3}", ["d", "'k'", "100", "1"]),
+            ("AugAttrRhs", "class K:\n    v = 1\no = K()\no.v += {0}", ["2"]),
         ]
     if feat["fstring_conv"]:
         tpls += [("FStringConv", "x = f'{{{0}!r}}{{{1}!s:>5}}{{{2}!a}}'", ["'a'", "'b'", "'\\u00e9'"])]
